@@ -789,7 +789,7 @@ def model_specs(draw, **kw):
         shape = [1, draw(st.integers(2, 6)), draw(st.integers(2, 6)), draw(st.integers(1, 4))]
       if g.inputs and draw(st.booleans()):
         shape = list(g.tensors[g.inputs[0]]['shape'])
-      positive = cfg['positive_inputs'] and draw(st.integers(0, 3)) == 0
+      positive = cfg.get('force_positive') or (cfg['positive_inputs'] and draw(st.integers(0, 3)) == 0)
       g.new_input(shape, 'f32', dom=[0.5, 2.0] if positive else None,
                   mag=draw(st.sampled_from([0.3, 1.0, 1.0, 3.0])))
     nnodes = draw(st.integers(cfg['min_nodes'], cfg['max_nodes']))
